@@ -16,7 +16,7 @@ RULE = (
     "instants/durations/JSON data from the shared generators); the peewee handle is closed and SqliteStorage(profile) is constructed without a file path, which is the "
     "only way the migration runs. Oracle: the new store lists the same bucket ids; per bucket equal type/client/hostname/name/data and created equal as an instant; "
     "events equal as a multiset of (instant floored to ms, duration us, data) - none dropped, none duplicated (ids may be renumbered); the legacy file's logical "
-    "contents (every row of every table) and its SHA-256 are unchanged and no journal/WAL sibling is left. Non-trivial = >= 1 bucket with >= 2 events and a non-empty data dict."
+    "contents (every row of every table) and its SHA-256 are unchanged and no journal/WAL sibling is left. About one bucket in ten is large (400..1300 events, 1..7 per instant, touching or zero-length) and in half the cases a legacy database of the OTHER profile with different contents lies next to it. Non-trivial = >= 1 bucket with >= 2 events and a non-empty data dict, or a large bucket."
 )
 ASSUMPTIONS = [
     "event ids are not promised to survive the migration",
@@ -41,6 +41,16 @@ def strategy(draw, tier="quick"):
         n = draw(st.one_of(st.integers(0, 5), st.integers(0, nmax)))
         rich = draw(st.booleans())
         evs = []
+        if draw(st.integers(0, 11 if not big else 5)) == 0:
+            # a large bucket given compactly: `many` events, `per` per instant (equal timestamps), touching neighbours
+            buckets.append(
+                {
+                    "id": POOL[i], "type": "currentwindow", "client": "c", "hostname": "host", "name": None, "data": None,
+                    "created_us": 1_500_000_000_000_000, "created_off": 0, "events": [],
+                    "many": draw(st.integers(400, 1300)), "per": draw(st.sampled_from([1, 2, 3, 7])), "step_ms": draw(st.sampled_from([1, 1000])), "dur_ms": draw(st.sampled_from([0, 1, 1000, 1500])),
+                }
+            )
+            continue
         for _ in range(n):
             if rich:
                 evs.append({"us": draw(gen.instants()), "off": draw(gen.offsets()), "dur_us": draw(gen.durations_us()), "data": draw(gen.json_data(4))})
@@ -59,7 +69,14 @@ def strategy(draw, tier="quick"):
                 "events": evs,
             }
         )
-    return {"testing": draw(st.booleans()), "buckets": buckets}
+    decoy = draw(st.one_of(st.none(), st.integers(0, 3)))  # also put a legacy database of the OTHER profile next to it
+    return {"testing": draw(st.booleans()), "buckets": buckets, "decoy": decoy}
+
+
+def _events(b):
+    if b.get("many"):
+        return [{"us": 1_600_000_000_000_000 + (k // b["per"]) * b["step_ms"] * 1000, "off": 0, "dur_us": b["dur_ms"] * 1000, "data": {"n": k}} for k in range(b["many"])]
+    return b["events"]
 
 
 def known_key(case, v):
@@ -83,6 +100,13 @@ def run_case(case):
     os.environ["XDG_DATA_HOME"] = home
     new = None
     try:
+        if case.get("decoy") is not None:
+            with sut("writing the other profile's legacy database"):
+                other = Datastore(PeeweeStorage, testing=not testing)
+                for k in range(case["decoy"]):
+                    h = other.create_bucket(f"decoy-{k}", type="decoy", client="d", hostname="d", created=gen.dt_utc(1_400_000_000_000_000))
+                    h.insert([stores.mk_event(Event, {"us": 1_400_000_000_000_000 + j * 10**6, "off": 0, "dur_us": 5, "data": {"decoy": j}}) for j in range(3)])
+                stores.close_store(other)
         with sut("writing the legacy (peewee v2) database"):
             ds = Datastore(PeeweeStorage, testing=testing)
             for b in case["buckets"]:
@@ -92,8 +116,8 @@ def run_case(case):
                 if b["data"] is not None:
                     kw["data"] = json.loads(json.dumps(b["data"]))
                 h = ds.create_bucket(b["id"], type=b["type"], client=b["client"], hostname=b["hostname"], created=gen.dt_at(b["created_us"], b["created_off"]), **kw)
-                if b["events"]:
-                    h.insert([stores.mk_event(Event, e) for e in b["events"]])
+                if _events(b):
+                    h.insert([stores.mk_event(Event, e) for e in _events(b)])
             stores.close_store(ds)
         ddir = os.path.join(home, "activitywatch", "aw-server")
         legacy = os.path.join(ddir, "peewee-sqlite" + ("-testing" if testing else "") + ".v2.db")
@@ -121,7 +145,7 @@ def run_case(case):
                 raise Violation(f"bucket {b['id']!r}: created migrated as {m['created']!r} ({cu} us), legacy had {b['created_us']} us")
             with sut("reading migrated events"):
                 evs = sorted(stores.ev_tuple(e)[1:] for e in new[b["id"]].get(limit=-1))
-            want = sorted((gen.floor_ms(e["us"]), e["dur_us"], json.dumps(json.loads(json.dumps(e["data"])), sort_keys=True)) for e in b["events"])
+            want = sorted((gen.floor_ms(e["us"]), e["dur_us"], json.dumps(json.loads(json.dumps(e["data"])), sort_keys=True)) for e in _events(b))
             if evs != want:
                 missing = [x for x in want if x not in evs]
                 extra = [x for x in evs if x not in want]
@@ -158,8 +182,12 @@ def run_case(case):
         else:
             os.environ["XDG_DATA_HOME"] = old_home
         shutil.rmtree(home, ignore_errors=True)
-    nt = any(len(b["events"]) >= 2 and b["data"] for b in case["buckets"])
+    nt = any(len(_events(b)) >= 2 and b["data"] for b in case["buckets"]) or any(b.get("many") for b in case["buckets"])
     classes = ["testing" if testing else "normal", f"buckets_{len(case['buckets'])}"]
-    if any(len(b["events"]) > 100 for b in case["buckets"]):
+    if any(len(_events(b)) > 100 for b in case["buckets"]):
         classes.append("over_100_events")
-    return {"nontrivial": nt, "classes": classes, "evals": 1 + sum(len(b["events"]) for b in case["buckets"])}
+    if any(len(_events(b)) > 500 for b in case["buckets"]):
+        classes.append("over_500_events")
+    if case.get("decoy") is not None:
+        classes.append("other_profile_legacy_db_present")
+    return {"nontrivial": nt, "classes": classes, "evals": 1 + sum(len(_events(b)) for b in case["buckets"])}
